@@ -1,9 +1,9 @@
-\* quick facet "signing": min-de 1, two signings with up to two attempts, failing queries, every order / duplication
+\* thorough facet "signing" (4 pairs): min-de 1, two signings with up to two attempts, failing queries, every order / duplication
 \* of notifications (HandleSigning is enabled for every id at every moment), sender landing or giving up in any batch
 CONSTANTS
   NSig = 2
   MaxAtt = 2
-  MaxTok = 3
+  MaxTok = 4
   MinSet = {1}
   MaxDESet = {2}
   GasSet = {FALSE}
